@@ -6,6 +6,7 @@ import (
 	"crypto/sha256"
 	"encoding/hex"
 	"fmt"
+	"math/big"
 	"os"
 	"runtime"
 	"sort"
@@ -353,6 +354,68 @@ func c18QueryIndependence(rc *RunCtx) {
 	cmp("same-instance-again", queryTranscript(ref0))
 }
 
+// c18RepeatBranches: every single-condition rejection of a receive and of a deposit (and the accepting case) is
+// executed on a fresh instance, then the identical sequence again on another fresh instance of the same process:
+// results must be identical - a rejection path must not leave anything behind in the process.
+func c18RepeatBranches(rc *RunCtx) {
+	run := func() []string {
+		sub := &RunCtx{ID: "C18", Tier: "quick", Seed: rc.Seed, Cov: NewCov(), Shard: 0, NShards: 1}
+		sub.Rand = newRand(rc.Seed*17 + 3)
+		var out []string
+		for flags := 0; flags < 4; flags++ {
+			e, err := c03Engine(sub, flags&1 != 0, flags&2 != 0)
+			if err != nil {
+				return nil
+			}
+			e.LightQueries = true
+			fresh := uint64(300000 + flags*1000)
+			masks := []uint32{0, A2Attestation, A3Header, A4DstDomain, A5Version, A6NonceUnused, A7Caller, B2BodyLen, B3BodyVersion, B4Messenger, B5Pair, B6Mint}
+			for _, mask := range masks {
+				for _, module := range []bool{true, false} {
+					for v := 0; v < 3; v++ {
+						nm := normaliseMask(mask, module)
+						tx := c03Case{mask: nm, module: module, variant: v}.build(e, &fresh)
+						rep := e.Exec(tx)
+						out = append(out, resultDigest(&rep.Res))
+					}
+				}
+			}
+			// deposits: each precondition falsified alone, and the accepting case
+			for _, pm := range []uint32{0, P1Amount, P2Limit, P3Denom, P4MintRecipient, P5Messenger, P7BodySize, P10Caller, PFrom} {
+				for _, wc := range []bool{false, true} {
+					if !wc && pm == P10Caller {
+						continue
+					}
+					amt := big.NewInt(5)
+					if pm == P1Amount {
+						amt = big.NewInt(0)
+					}
+					tx := c08Deposit(e, pm&^P7BodySize, wc, amt, int(pm%7), "uusdc")
+					rep := e.Exec(tx)
+					out = append(out, resultDigest(&rep.Res))
+				}
+			}
+			// unauthorised administrative requests of every type
+			for ti, at := range adminTypes {
+				rep := e.Exec(Tx{Msgs: msgs1(at.Make(e.M, Acct(UserIx), ti)), Note: "C18 repeat: unauthorised " + at.Name})
+				out = append(out, resultDigest(&rep.Res))
+			}
+		}
+		return out
+	}
+	a, b, c := run(), run(), run()
+	rc.Cov.Assert("C18.repeat-branches")
+	rc.Cov.Cell("C18_modes", "repeat-rejection-branches")
+	rc.Cov.Evaluations += len(a) + len(b) + len(c)
+	for i := range a {
+		if i >= len(b) || i >= len(c) || a[i] != b[i] || a[i] != c[i] {
+			rc.Report(Violation{Props: []string{"C18"}, Monitor: "repeat-branches", Sig: "C18:same-sequence-differs-within-a-process",
+				Detail: fmt.Sprintf("request #%d of a fixed sequence of accepted and rejected requests gives another result the second or third time it is executed, on a fresh instance, in the same process", i)})
+			return
+		}
+	}
+}
+
 func c18Params(tier string) (H, nTx int) {
 	if tier == "thorough" {
 		return 16, 1200
@@ -396,6 +459,10 @@ func runC18(rc *RunCtx) {
 	}
 	// (b+) the same transactions packed 2, 7 and all-in-one to a block
 	c18BlockPartition(rc, rc.Seed, (hid+1)%H, nTx, []int{2, 7, 1 << 30, 1})
+	// (b+++) every rejection branch twice in one process
+	if rc.Shard%3 == 1 {
+		c18RepeatBranches(rc)
+	}
 	// (b++) query answers are independent of concurrent instances and of requests served earlier in the process
 	if rc.Shard%3 == 0 {
 		c18QueryIndependence(rc)
